@@ -44,7 +44,7 @@ Rewrite rules (closed list, every application logged with source line):
   N7  `E.is_some_and(|p| B)` / `E.is_none_or(|p| B)` -> `match` (definitions)
   N9  `for (i, x) in E.into_iter().enumerate() {B}` (or `E.iter().enumerate()`) -> counter + plain `for`
   N8  `E.map(|p| B)` on an Option -> `match`
-  N6  iterator chains `X.iter().position(|p| B)`, `X.iter().any(|p| B)` and `X.iter().filter(|p| F).map(|q| E).collect()` ->
+  N6  iterator chains `X.iter().position(|p| B)`, `X.iter().any(|p| B)`, `X.iter().all(|p| B)` and `X.iter().filter(|p| F).map(|q| E).collect()` ->
       explicit `for` loops (definitions of the adapters for side-effect-free closures)
   N10 (opt-in) `X.iter()|into_iter()[.zip(Y)] .map(|p| E) | .filter_map(|p| O.map(|q| E)) .collect()` -> explicit loop
       pushing into a Vec, inserting pairs into a HashMap (when the `let` is annotated HashMap) or building `Ok(vec)`
@@ -915,7 +915,7 @@ def desugar_iter_chains(text, log, relfile, line):
             if i + 1 >= n or toks[i + 1].text != "(":
                 continue
             rs = _recv_start(toks, i - 5)
-            if t.text in ("any", "position"):
+            if t.text in ("any", "all", "position"):
                 pat, body, c = _closure_parts(toks, text, i + 1)
                 cands.append((t.text, toks[rs].start, toks[c].end, text[toks[rs].start:toks[i - 5].start], pat, body, None, None))
             elif t.text == "filter":
@@ -939,6 +939,10 @@ def desugar_iter_chains(text, log, relfile, line):
         if kind == "position":
             repl = "{\nlet mut __p%d: Option<usize> = None;\nlet mut __n%d: usize = 0;\nfor __i%d in %s.iter() {\n%s\nif __p%d.is_none() && %s {\n__p%d = Some(__n%d);\n}\n__n%d += 1;\n}\n__p%d\n}" % (
                 k, k, k, recv, _bind(pat, "__i%d" % k, False), k, body, k, k, k, k)
+        elif kind == "all":
+            # definition of Iterator::all for a side-effect-free predicate (no short-circuit needed: the result is the same)
+            repl = "{\nlet mut __a%d = true;\nfor __i%d in %s.iter() {\n%s\nif !(%s) {\n__a%d = false;\n}\n}\n__a%d\n}" % (
+                k, k, recv, _bind(pat, "__i%d" % k, False), body, k, k)
         elif kind == "any":
             repl = "{\nlet mut __a%d = false;\nfor __i%d in %s.iter() {\n%s\nif %s {\n__a%d = true;\n}\n}\n__a%d\n}" % (
                 k, k, recv, _bind(pat, "__i%d" % k, False), body, k, k)
@@ -1836,7 +1840,7 @@ class Gen:
             new_body = desugar_remove_if_mut(src[lo:hi], self.log, rel, fn_line)
             src = src[:lo] + new_body + src[hi:]
             hi = lo + len(new_body)
-        if "N6" in enabled and re.search(r"\.iter\(\)\s*\.(any|filter|position)\(", src[lo:hi]):
+        if "N6" in enabled and re.search(r"\.iter\(\)\s*\.(any|all|filter|position)\(", src[lo:hi]):
             new_body = desugar_iter_chains(src[lo:hi], self.log, rel, fn_line)
             src = src[:lo] + new_body + src[hi:]
             hi = lo + len(new_body)
